@@ -100,6 +100,10 @@ def build_ops(repo, seed):
         texts2.append(open(f).read())
     for t in texts3 + texts2:
         add("read", t); add("canon_text", t); add("ser_text", t); add("write_text", t)
+    # isomers whose default renderings have the same size: read one after the other from one path with one modification time
+    for bonds in ([(0, 1, 1), (1, 2, 1), (2, 3, 1)], [(0, 1, 1), (1, 2, 1), (1, 3, 1)], [(0, 1, 1), (0, 2, 1), (2, 3, 1)], [(0, 3, 1), (1, 3, 1), (2, 3, 1)]):
+        iso_mol = Mol([Atom("C", 0, 0, 0, 0.0, 0.0, 0.0), Atom("C", 0, 0, 0, 0.0, 0.0, 0.0), Atom("C", 0, 0, 13, 0.0, 0.0, 0.0), Atom("O", 0, 0, 0, 0.0, 0.0, 0.0)], bonds, "C3O isomer")
+        add("read_file", ctab.render_v3000(iso_mol, V3Style(), random.Random(7)))  # same spelling choices for all four: equal sizes
     bridge.import_tucan(repo)
     for s in ("CH3/(1-4)(2-4)(3-4)/(4:rad=2,mass=13)", "C2H6O/(1-7)(2-7)(3-7)(4-8)(5-8)(6-9)(7-8)(8-9)/(9:mass=18)(9:rad=2)(1:mass=2)", "He2//(2:mass=3,rad=1)(1:rad=1)"):
         add("parse", s); add("norm", s); add("write_tucan", s)
